@@ -6,6 +6,7 @@
    A built-in that exists in the implementation but is not modelled answers Unsup (case skipped);
    a name that does not exist answers None (method not found => error). *)
 From P2 Require Import Base.Prelude Sem.Num Sem.Syntax Sem.Ops.
+From P2 Require Export Sem.StrLib.
 Local Open Scope Z_scope.
 
 Definition S_ (l : list N) : str := l.
@@ -58,6 +59,10 @@ Definition n_merge := S_ [109;101;114;103;101]%N.
 Definition n_minItem := S_ [109;105;110;73;116;101;109]%N.
 Definition n_maxItem := S_ [109;97;120;73;116;101;109]%N.
 Definition n_valid := S_ [118;97;108;105;100]%N.
+Definition n_visit := S_ [118;105;115;105;116]%N.
+Definition n_eval := S_ [101;118;97;108]%N.
+Definition n_set := S_ [115;101;116]%N.
+Definition n_args := S_ [97;114;103;115]%N.
 
 Definition clo_arity (v : value) : option nat :=
   match v with VClo ps _ _ _ => Some (length ps) | _ => None end.
@@ -283,6 +288,9 @@ Definition list_method (mname : name) : option arity :=
   else if str_eqb mname n_iirCombine then Some (Fixed 2)
   else if str_eqb mname n_cross then Some (Fixed 2)
   else if str_eqb mname n_merge then Some (Fixed 2)
+  else if str_eqb mname n_visit then Some (Fixed 2)
+  else if str_eqb mname n_eval then Some (Fixed 0)
+  else if str_eqb mname n_set then Some (Fixed 2)
   else None.
 
 Definition run_list_method (mname : name) (l : list value) (args : list value) : res value :=
@@ -439,6 +447,20 @@ Definition run_list_method (mname : name) (l : list value) (args : list value) :
         else Err None
     | _ => Err None
     end
+  else if str_eqb mname n_visit then        (* List.Visit(initial, f(visitor, item)): the loop of mapReduce *)
+    match args with
+    | [init; f] => if is_func f 2 then fold_app f init l else Err None
+    | _ => Err None
+    end
+  else if str_eqb mname n_eval then Ok (VList l)      (* List.Eval: the list itself, evaluated *)
+  else if str_eqb mname n_set then          (* List.Set(index, value): MustInt, range check, copy *)
+    match args with
+    | [VInt i; x] =>
+        if (i <? 0) || (Z.of_nat (length l) <=? i) then Err None
+        else Ok (VList (firstn (Z.to_nat i) l ++ x :: skipn (S (Z.to_nat i)) l))
+    | [VErrText _; _] => Unsup
+    | _ => Err None
+    end
   else Unsup.
 
 Definition map_method (mname : name) : option arity :=
@@ -486,8 +508,10 @@ Definition method_arity (recv : value) (mname : name) : option arity :=
   match recv with
   | VList _ => list_method mname
   | VMap _ => map_method mname
-  | VStr _ => if str_eqb mname n_len || str_eqb mname n_string then Some (Fixed 0) else None
+  | VStr _ => if str_eqb mname n_len || str_eqb mname n_string then Some (Fixed 0)
+              else match str_method_args mname with Some k => Some (Fixed k) | None => None end
   | VInt _ | VFloat _ | VBool _ => if str_eqb mname n_string then Some (Fixed 0) else None
+  | VClo _ _ _ _ => if str_eqb mname n_args then Some (Fixed 0) else None
   | _ => None
   end.
 
@@ -498,9 +522,11 @@ Definition run_method (recv : value) (mname : name) (args : list value) : res va
   | VStr s =>
       if str_eqb mname n_len then Ok (VInt (utf8_len s))
       else if str_eqb mname n_string then Ok (VStr s)
-      else Unsup
+      else run_str_method mname s args       (* Sem/StrLib.v: the first-order string methods *)
   | VInt _ | VFloat _ | VBool _ =>
       if str_eqb mname n_string then bind (to_string recv) (fun s => Ok (VStr s)) else Unsup
+  | VClo ps _ _ _ =>                         (* Closure.args: the number of parameters *)
+      if str_eqb mname n_args then Ok (VInt (Z.of_nat (length ps))) else Unsup
   | _ => Unsup
   end.
 
